@@ -39,9 +39,10 @@ let handle kind a =
        | RWritePanic -> Some "Panic"
        | RReadFail -> Some "ReadFail"
        | ROk (cig, s) -> Some (fmt_cigar cig ^ " " ^ hex_of_bytes s))
-  | "cont" ->
-      (* a.(1): slices separated by '/', the first group is the compression header block *)
-      (match split_on '/' a.(1) with
+  | "cont" | "big" when (if kind = "big" then a.(5) else a.(1)) = "-" -> Some "-"
+  | "cont" | "big" ->
+      (* blocks: slices separated by '/', the first group is the compression header block *)
+      (match split_on '/' (if kind = "big" then a.(5) else a.(1)) with
        | chs :: slices ->
            let ch = parse_block chs in
            let slices = List.map (fun s ->
